@@ -115,10 +115,30 @@ func runSpec(ctx context.Context, r *gkit.Runner, env *gkit.CallEnv, c CaseGraph
 }
 
 func checkC01(c CaseGraph) (*vkit.Failure, vkit.Meta) {
+	f, m, ref := checkRef(c, nil)
+	if ref != nil {
+		chainStruct := false
+		for _, st := range c.Spec.Stages {
+			if st.Kind != "node" {
+				chainStruct = true
+			}
+		}
+		m.NonTrivial = !ref.Ambiguous && len(ref.Execs) >= 3 && (ref.FanInSameStep || ref.MaxNodeRuns >= 2 || ref.BranchVaried || ref.GraphNodeRan || chainStruct)
+	}
+	return f, m
+}
+
+// checkRef runs one case against the reference model of its mode.  r may carry an
+// already compiled runner (nil = compile here).
+func checkRef(c CaseGraph, r *gkit.Runner) (*vkit.Failure, vkit.Meta, *gkit.RefResult) {
 	var m vkit.Meta
+	var ref *gkit.RefResult
+	if c.Spec == nil {
+		return nil, m, nil // not a case of this kind (foreign replay file)
+	}
 	f := vkit.Guard("panic-escaped", func() *vkit.Failure {
 		in := fixInput(c.Spec, c.Input)
-		ref := gkit.Ref(c.Spec, "", in, gkit.RefOpts{MaxSteps: c.CallMax})
+		ref = gkit.Ref(c.Spec, "", in, gkit.RefOpts{MaxSteps: c.CallMax})
 		m.Labels = append(m.Labels, "mode:"+c.Spec.Mode, "paradigm:"+c.Paradigm, "ref:"+refClass(ref))
 		if ref.FanInSameStep {
 			m.Labels = append(m.Labels, "fan-in-same-step")
@@ -132,14 +152,12 @@ func checkC01(c CaseGraph) (*vkit.Failure, vkit.Meta) {
 		if ref.GraphNodeRan {
 			m.Labels = append(m.Labels, "graph-node-ran")
 		}
-		chainStruct := false
-		for _, st := range c.Spec.Stages {
-			if st.Kind != "node" {
-				chainStruct = true
-			}
+		if len(ref.Skipped) > 0 {
+			m.Labels = append(m.Labels, "node-skipped")
 		}
-		m.NonTrivial = len(ref.Execs) >= 3 && (ref.FanInSameStep || ref.MaxNodeRuns >= 2 || ref.BranchVaried || ref.GraphNodeRan || chainStruct)
-
+		if ref.MixedPreds {
+			m.Labels = append(m.Labels, "mixed-skipped/finished-predecessors")
+		}
 		if baseClass(ref.Fail) == "merge" && c.Paradigm == "stream" {
 			// streams are merged chunk-wise; duplicate keys are only detected for values
 			ref.Ambiguous = true
@@ -150,9 +168,12 @@ func checkC01(c CaseGraph) (*vkit.Failure, vkit.Meta) {
 			return nil
 		}
 		ctx := context.Background()
-		r, err := gkit.Compile(ctx, c.Spec, nil)
-		if err != nil {
-			return vkit.Failf("compile-rejected-wellformed-graph", "Compile failed on a well-typed generated graph: %v", err)
+		if r == nil {
+			var err error
+			r, err = gkit.Compile(ctx, c.Spec, nil)
+			if err != nil {
+				return vkit.Failf("compile-rejected-wellformed-graph", "Compile failed on a well-typed generated graph: %v", err)
+			}
 		}
 		env := gkit.NewEnv("c01")
 		env.MaxRunsPerNode = 400
@@ -182,7 +203,7 @@ func checkC01(c CaseGraph) (*vkit.Failure, vkit.Meta) {
 		}
 		return nil
 	})
-	return f, m
+	return f, m, ref
 }
 
 func refClass(r *gkit.RefResult) string {
